@@ -1033,10 +1033,15 @@ bool ReplaceContent(const string& file_dst, const string& new_content,
   }
 #endif
 
+#ifdef _WIN32
+  // rename() does not replace an existing file on Windows.  On POSIX it does,
+  // atomically: removing the old file first would leave a window in which a
+  // crash loses the whole log.
   if (platformAwareUnlink(file_dst.c_str()) < 0) {
     *err = strerror(errno);
     return false;
   }
+#endif
 
   if (rename(new_content.c_str(), file_dst.c_str()) < 0) {
     *err = strerror(errno);
